@@ -12,7 +12,7 @@
 -/
 import Grenad.Proofs.IterLists
 
-namespace Grenad
+namespace Grenad.IterP
 
 open Spec (Pos SRes land lowerBound upperBound)
 
@@ -31,7 +31,7 @@ theorem land_eq (es : List Entry) (i : Nat) :
   unfold Spec.land
   by_cases h : i < es.length
   · simp [h]
-  · simp [h, List.getElem?_eq_none (Nat.le_of_not_lt h)]
+  · simp [h]
 
 theorem lowerBound_le_length (es : List Entry) (q : Bytes) : lowerBound es q ≤ es.length :=
   length_takeWhile_le _ _
@@ -172,11 +172,11 @@ theorem bound_cases (es : List Entry) (h : StrictAsc es) (q : Bytes) :
 
 /-! #### start / end indices of a range -/
 
-/-- Index of the first entry admitted by the lower bound. -/
+/-- Index of the first entry accepted by the lower bound. -/
 def startIdx (es : List Entry) (lo : Bound) : Nat :=
   (es.takeWhile (fun e => !startContains lo e.1)).length
 
-/-- Index after the last entry admitted by the upper bound. -/
+/-- Index after the last entry accepted by the upper bound. -/
 def endIdx (es : List Entry) (hi : Bound) : Nat :=
   (es.takeWhile (fun e => endContains hi e.1)).length
 
@@ -545,4 +545,4 @@ theorem PrefixIter.nextRev_eq (it : PrefixIter γ) :
 
 end iters
 
-end Grenad
+end Grenad.IterP
